@@ -400,9 +400,11 @@ def decorate_stereo(m, choices):
                 if any(m.atom(x).atomic_number not in (6, 7) or sum(b.order == 2 for b in m._bonds[x].values()) != 1
                        for x in (n, k)):
                     continue
-                # ... and, inside rings, only macrocyclic double bonds whose ends belong to that single ring
-                if any(len(m.atoms_rings.get(x, ())) > 1 or any(len(r) < 8 for r in m.atoms_rings.get(x, ()))
-                       for x in (n, k)):
+                # ... and, for endocyclic double bonds, only macrocyclic ones whose ends belong to that single ring
+                path = next(p for p in m.stereogenic_cumulenes if {p[0], p[-1]} == {n, k})
+                if any(m._bonds[a][b].in_ring for a, b in zip(path, path[1:])) and \
+                        any(len(m.atoms_rings.get(x, ())) > 1 or any(len(r) < 8 for r in m.atoms_rings.get(x, ()))
+                            for x in (n, k)):
                     continue
                 if (n, k) in m.chiral_cis_trans:
                     c = choices.pop(0) if choices else 1
